@@ -33,3 +33,19 @@ Lemma created_weight_wraps :
   exists L' v, create_leaf ww_L ww_t [11%N] [11%N] 12%N true None = (L', ROk, Some v) /\
                v_left v = 11%N /\ v_weight ww_big = 18446744073709551615 /\ v_weight v = 0.
 Proof. split; [vm_compute; reflexivity|]. eexists. eexists. vm_compute. repeat split; reflexivity. Qed.
+
+(* ---------------------------------------------------------------- admission depends on the order of INDEPENDENT vertices *)
+(* four valid vertices on genesis 10: A (weight 10^6) and B (weight 1) on genesis, C on A, D on B.  Both delivery orders
+   are parents-first; validating the heavy tip A (when C arrives) raises the node's weight, after which the light tip B
+   fails the weight window when D arrives. *)
+Definition o_G := fst (create_genesis (init 1%N) 2%N (Mel 1000 0) false 100%N 10%N true).
+Definition o_A := Vtx 11%N 10%N 10%N 1000000 5%N true (Trx 101%N 2%N 3%N (Mel 1 0) false).
+Definition o_B := Vtx 12%N 10%N 10%N 1 5%N true (Trx 102%N 2%N 3%N (Mel 1 0) false).
+Definition o_C := Vtx 13%N 11%N 11%N 1000001 5%N true (Trx 103%N 2%N 3%N (Mel 1 0) false).
+Definition o_D := Vtx 14%N 12%N 12%N 2 5%N true (Trx 104%N 2%N 3%N (Mel 1 0) false).
+Definition deliver (L : ledger) (vs : list vertex) : ledger * list res :=
+  fold_left (fun acc v => let '(L, rs) := acc in let '(L', r) := add_leaf L v None in (L', rs ++ [r])) vs (L, []).
+Lemma order_of_independent_vertices_matters :
+  (let '(L, rs) := deliver o_G [o_A; o_B; o_C; o_D] in (rs, map nhash (dag L))) = ([ROk; ROk; ROk; RRejected], [13; 11; 10]%N) /\
+  (let '(L, rs) := deliver o_G [o_A; o_B; o_D; o_C] in (rs, map nhash (dag L))) = ([ROk; ROk; ROk; ROk], [13; 14; 12; 11; 10]%N).
+Proof. vm_compute. split; reflexivity. Qed.
